@@ -44,6 +44,10 @@ def main (_args : List String) : IO Unit := do
       stdout.putStrLn s!"item {id}"
       stdout.putStrLn (runLeafRace toks)
       stdout.putStrLn "end"
+    | "racecase" :: id :: _ =>
+      stdout.putStrLn s!"item {id}"
+      stdout.putStrLn (runRaceCase toks)
+      stdout.putStrLn "end"
     | "outcase" :: id :: _ =>
       stdout.putStrLn s!"item {id}"
       stdout.putStrLn (runOutCase toks)
